@@ -119,7 +119,7 @@ impl<'a> Recorder<'a> {
                         Ok((a, _)) => a.to_trace_json(),
                         Err(s) => json!({"broken": s}),
                     },
-                    Err(p) => json!({"broken": format!("the direct calls panicked: {p}")}),
+                    Err(p) => json!({"broken": format!("the direct calls panicked: {p}"), "panicked": true}),
                 });
             }
         }
